@@ -60,7 +60,7 @@ var definitional = map[string]string{
 	"draw.DrawMask($_, $_, $_, $_, nil, image.Point{}, $_)": "draw.Draw calls DrawMask with a nil mask",
 	"switch true { $*_ }":                  "Go specification: a missing switch tag is equivalent to true",
 	"switch $x; true { $*_ }":              "Go specification: a missing switch tag is equivalent to true",
-	"copy($_, []byte($s))":                 "Go specification: copy accepts a string source; the bytes copied are the same",
+	"$copy($_, []byte($s))":                "Go specification: copy accepts a string source; the bytes copied are the same",
 	"$re.Match([]byte($s))":                "regexp: MatchString(s) is documented to report what Match reports on the bytes of s",
 	"$re.FindIndex([]byte($s))":            "regexp: FindStringIndex is the string version of FindIndex",
 	"$re.FindAllIndex([]byte($s), $n)":     "regexp: FindAllStringIndex is the string version of FindAllIndex",
@@ -79,6 +79,9 @@ var compoundAssignRe = regexp.MustCompile(`^\$x = \$x (\+|-|\*|/|%|&|\||\^|<<|>>
 // smtOfTemplate translates an expression template to an SMT term. sorts: variable -> "Int" | "String" | "Bool" | "Time".
 type tmplTr struct {
 	sorts map[string]string
+	// pattern variables in callee position that the rule's filters pin to a predeclared function
+	// (Text == "len" and Object.Is(Builtin)): they denote that builtin
+	builtins map[string]string
 	decls map[string]string
 	hyps  []string
 	err   error
@@ -178,6 +181,9 @@ func (t *tmplTr) expr(e ast.Expr) (string, string) {
 		switch f := e.Fun.(type) {
 		case *ast.Ident:
 			name = f.Name
+			if b, ok := t.builtins[strings.TrimPrefix(name, "v_")]; ok && strings.HasPrefix(name, "v_") {
+				name = b
+			}
 		case *ast.SelectorExpr:
 			if id, ok := f.X.(*ast.Ident); ok {
 				name = id.Name + "." + f.Sel.Name
@@ -420,7 +426,7 @@ func init() {
 							c.direct = append(c.direct, &directResult{Name: pn + "/operand-type-is-exactly-string", OK: hasFilterArg(r, "FilterVarTypeIsOp", "x", "string"), Detail: "fmt.Sprint(x) is x only when x has type string; a defined string type may have Error/Format/String methods that fmt consults first"})
 						} else {
 							okS := hasFilterArg(r, "FilterVarTypeImplementsOp", "x", "fmt.Stringer")
-							c.direct = append(c.direct, &directResult{Name: pn + "/operand-is-a-stringer", OK: okS && rw == "$x.String()", Detail: "the only other rewrite with a stated semantics is $x.String() for fmt.Stringer operands; " + strconv.Quote(rw) + " has none"})
+							c.direct = append(c.direct, &directResult{Name: pn + "/operand-is-a-stringer", OK: okS && (rw == "$x.String()" || rw == "($x).String()"), Detail: "the only other rewrite with a stated semantics is $x.String() for fmt.Stringer operands; " + strconv.Quote(rw) + " has none"})
 						}
 						continue
 					}
@@ -430,7 +436,12 @@ func init() {
 						c.direct = append(c.direct, &directResult{Name: pn + "/rewrite-has-an-equivalence-lemma", OK: false, Detail: fmt.Sprintf("pattern %q -> %q is neither an expression of the modelled fragment nor a listed definitional identity", pat, rw)})
 						continue
 					}
-					tr := &tmplTr{sorts: sortsFor(g, r), decls: map[string]string{}}
+					tr := &tmplTr{sorts: sortsFor(g, r), decls: map[string]string{}, builtins: map[string]string{}}
+					for _, v := range varOccurrences(pat) {
+						if textIs(r, v, "len") && hasFilterArg(r, "FilterVarObjectIsOp", v, "Builtin") {
+							tr.builtins[v] = "len"
+						}
+					}
 					lp, sp := tr.expr(pe)
 					lr, sr := tr.expr(re)
 					if tr.err != nil || sp != sr {
